@@ -174,3 +174,120 @@ func (e *Exec) protectPackageState(p *ssa.Package) {
 		}, map[*Cell]bool{})
 	}
 }
+
+// ---------- strings.Builder, bytealg ----------
+
+func init() {
+	// strings.Builder: the text written so far (its own implementation goes through unsafe)
+	cur := func(e *Exec, p Value) (*Cell, *StrV) {
+		pv := p.(*PtrV)
+		if pv.c == nil {
+			e.nilDeref()
+		}
+		bs, _ := e.opaque["builders"].(map[*Cell]*StrV)
+		if bs == nil {
+			bs = map[*Cell]*StrV{}
+			e.opaque["builders"] = bs
+		}
+		s := bs[pv.c]
+		if s == nil {
+			s = e.constString("")
+		}
+		return pv.c, s
+	}
+	set := func(e *Exec, c *Cell, s *StrV) { e.opaque["builders"].(map[*Cell]*StrV)[c] = s }
+	sliceToStr := func(e *Exec, x *SliceV) *StrV {
+		if x.arr == nil {
+			return e.constString("")
+		}
+		if !x.len.IsConst() && x.off.IsConst() {
+			r := e.mkString(e.windowBytes(x.arr, int(x.off.val)))
+			r.len = x.len
+			return r
+		}
+		bs := e.sliceBytes(x)
+		if len(bs) == 0 {
+			return e.constString("")
+		}
+		return e.mkString(bs)
+	}
+	intrinsics["(*strings.Builder).WriteString"] = func(e *Exec, a []Value, s *ssa.CallCommon) Value {
+		c, cs := cur(e, a[0])
+		set(e, c, e.strConcat(cs, a[1].(*StrV)).(*StrV))
+		return &TupleV{E: []Value{e.tb.Resize(a[1].(*StrV).len, 64, false), &IfaceV{}}}
+	}
+	intrinsics["(*strings.Builder).WriteByte"] = func(e *Exec, a []Value, s *ssa.CallCommon) Value {
+		c, cs := cur(e, a[0])
+		set(e, c, e.strConcat(cs, e.mkString([]*Term{a[1].(*Term)})).(*StrV))
+		return &IfaceV{}
+	}
+	intrinsics["(*strings.Builder).Write"] = func(e *Exec, a []Value, s *ssa.CallCommon) Value {
+		c, cs := cur(e, a[0])
+		p := a[1].(*SliceV)
+		set(e, c, e.strConcat(cs, sliceToStr(e, p)).(*StrV))
+		return &TupleV{E: []Value{p.len, &IfaceV{}}}
+	}
+	intrinsics["(*strings.Builder).WriteRune"] = func(e *Exec, a []Value, s *ssa.CallCommon) Value {
+		r := a[1].(*Term)
+		if !r.IsConst() || r.val >= 0x80 {
+			panic(e.unsupported("strings.Builder.WriteRune of a symbolic or non-ASCII rune"))
+		}
+		c, cs := cur(e, a[0])
+		set(e, c, e.strConcat(cs, e.constString(string(rune(r.val)))).(*StrV))
+		return &TupleV{E: []Value{e.c64(1), &IfaceV{}}}
+	}
+	intrinsics["(*strings.Builder).String"] = func(e *Exec, a []Value, s *ssa.CallCommon) Value {
+		_, cs := cur(e, a[0])
+		return cs
+	}
+	intrinsics["(*strings.Builder).Len"] = func(e *Exec, a []Value, s *ssa.CallCommon) Value {
+		_, cs := cur(e, a[0])
+		return cs.len
+	}
+	intrinsics["(*strings.Builder).Grow"] = func(e *Exec, a []Value, s *ssa.CallCommon) Value {
+		n := a[1].(*Term)
+		if e.branch(e.tb.Slt(n, e.c64(0)), "Builder.Grow-negative") {
+			panic(&goPanic{val: e.constString("strings.Builder.Grow: negative count"), site: e.site()})
+		}
+		return &TupleV{}
+	}
+	intrinsics["(*strings.Builder).Reset"] = func(e *Exec, a []Value, s *ssa.CallCommon) Value {
+		c, _ := cur(e, a[0])
+		set(e, c, e.constString(""))
+		return &TupleV{}
+	}
+	// assembly-backed byte search
+	intrinsics["internal/bytealg.IndexByteString"] = inIndexByte
+	intrinsics["internal/bytealg.IndexByte"] = func(e *Exec, a []Value, s *ssa.CallCommon) Value {
+		bs := e.sliceBytes(a[0].(*SliceV))
+		c := a[1].(*Term)
+		for i, b := range bs {
+			if e.branch(e.tb.Eq(b, c), "indexbyte") {
+				return e.c64(int64(i))
+			}
+		}
+		return e.tb.Const(64, ^uint64(0))
+	}
+	intrinsics["internal/bytealg.CountString"] = func(e *Exec, a []Value, s *ssa.CallCommon) Value {
+		bs := e.strBytes(a[0].(*StrV))
+		c := a[1].(*Term)
+		n := e.c64(0)
+		for _, b := range bs {
+			n = e.tb.Add(n, e.tb.Ite(e.tb.Eq(b, c), e.c64(1), e.c64(0)))
+		}
+		return n
+	}
+	intrinsics["internal/bytealg.IndexString"] = func(e *Exec, a []Value, s *ssa.CallCommon) Value {
+		hs, ns := e.strBytes(a[0].(*StrV)), e.strBytes(a[1].(*StrV))
+		for i := 0; i+len(ns) <= len(hs); i++ {
+			eq := e.tb.True()
+			for j := range ns {
+				eq = e.tb.And(eq, e.tb.Eq(hs[i+j], ns[j]))
+			}
+			if e.branch(eq, "indexstring") {
+				return e.c64(int64(i))
+			}
+		}
+		return e.tb.Const(64, ^uint64(0))
+	}
+}
